@@ -1,12 +1,478 @@
-/- Driver family `fs`: C12 C13 — layered filesystem.  (stub: replace `family`) -/
+/-
+Driver family `fs`: C12 C13 (+ filesystem clause of C14) — layered filesystem.
+
+Per case the driver keeps (a) the model state (`Mila.LayeredFs.Fs`), (b) the codec table sent with
+the `new` line (the graph of mila's compress / decompress / typed parsers on the byte strings that
+can occur in the case: the model's abstract `Env` is instantiated with it), and (c) for the oracle
+the *implementation's* directory walks after the previous operation plus the payloads written so
+far.  The oracle never looks at the model: it judges the implementation's return value and walks
+with `Mila.Spec.Overlay` and the `Spec.Loc` table.
+-/
 import Driver.Common
+import MilaModel.Model.LayeredFs
+import MilaModel.Spec.OverlayFs
 
 namespace Driver.Fs
-open Mila
+open Mila Mila.LayeredFs
+
+/-! ### codec table -/
+
+structure Rec where
+  bytes : Bytes
+  cz : Option Bytes
+  dz : Option Bytes
+  digs : List String
+
+def parseRec (s : String) : Option Rec :=
+  match s.splitOn "," with
+  | h :: cz :: dz :: digs =>
+    match bytesOfHex h with
+    | none => none
+    | some b =>
+      let c := if cz == "!" then none else bytesOfHex cz
+      let d := if dz.startsWith "o" then bytesOfHex (dz.drop 1).toString else none
+      some ⟨b, c, d, digs⟩
+  | _ => none
+
+abbrev Table := List Rec
+
+def Table.find (t : Table) (b : Bytes) : Option Rec := t.find? (fun r => r.bytes == b)
+
+def digRes (d : Option String) : Res String :=
+  match d with
+  | none => .panic                      -- byte string outside the table: made visible as a mismatch
+  | some "!" => .err .Invalid
+  | some "p" => .panic
+  | some s => .ok s
+
+def tableLz (t : Table) : Lz where
+  compress := fun b => match t.find b with
+    | some r => (match r.cz with | some c => .ok c | none => .err .Decoding)
+    | none => .panic
+  decompress := fun b => match t.find b with
+    | some r => (match r.dz with | some c => .ok c | none => .err .Decoding)
+    | none => .panic
+
+def digAt (t : Table) (i : Nat) (b : Bytes) : Res String := digRes ((t.find b).bind (fun r => r.digs[i]?))
+
+/-- The model's abstract environment, instantiated with the case's table.  Typed values are
+digests; the typed archives handed to `write_archive` are their serialisations (from field `A`). -/
+def envOf (t : Table) (arch : List (Option Nat)) : Env where
+  lz10 := tableLz t
+  lz13 := tableLz t
+  Bin := String
+  Txt := String
+  Pack := String
+  Arc := String
+  Tex := String
+  binParse := fun e b => digAt t (match e with | .big => 0 | .little => 1) b
+  binSer := fun a => match (a.drop 1).toString.toNat? with
+    | some k => (match arch.getD k none with | some i => (match t[i]? with | some r => .ok r.bytes | none => .panic) | none => .err .Invalid)
+    | none => .panic
+  txtParse := fun f e b => digAt t (match f, e with
+    | .shiftJis, .big => 2 | .shiftJis, .little => 3 | .unicode, .big => 4 | .unicode, .little => 5) b
+  txtSer := fun a => match (a.drop 1).toString.toNat? with
+    | some k => (match arch.getD k none with | some i => (match t[i]? with | some r => .ok r.bytes | none => .panic) | none => .err .Invalid)
+    | none => .panic
+  packParse := digAt t 6
+  arcParse := digAt t 7
+  tplParse := digAt t 8
+  bchParse := digAt t 9
+  ctpkParse := digAt t 10
+  cgfxParse := digAt t 11
+
+/-! ### parsing -/
+
+def gameOf : String → Option GameId
+  | "FE9" => some .FE9 | "FE10" => some .FE10 | "FE11" => some .FE11 | "FE12" => some .FE12
+  | "FE13" => some .FE13 | "FE14" => some .FE14 | "FE15" => some .FE15 | _ => none
+def specGame : GameId → Option Spec.Loc.Game
+  | .FE9 => some .FE9 | .FE10 => some .FE10 | .FE13 => some .FE13 | .FE14 => some .FE14
+  | .FE15 => some .FE15 | _ => none
+def langOf : String → Option Localize.Language
+  | "EnglishNA" => some .EnglishNA | "EnglishEU" => some .EnglishEU | "Japanese" => some .Japanese
+  | "Spanish" => some .Spanish | "French" => some .French | "Italian" => some .Italian
+  | "German" => some .German | "Dutch" => some .Dutch | _ => none
+def specLang : Localize.Language → Spec.Loc.Language
+  | .EnglishNA => .EnglishNA | .EnglishEU => .EnglishEU | .Japanese => .Japanese
+  | .Spanish => .Spanish | .French => .French | .Italian => .Italian | .German => .German
+  | .Dutch => .Dutch
+
+def compsOf (p : Bytes) : List Bytes := (splitOn' Localize.slash p).filter (fun c => !c.isEmpty)
+
+def pidx (s : String) : Option Nat := (s.drop 1).toString.toNat?
+
+/-- `hexpath:d` / `hexpath:f:p<i>` entries of a `new` line. -/
+def parseTree (t : Table) (s : String) : Layer :=
+  if s == "-" then [] else
+  (s.splitOn ",").filterMap (fun e =>
+    match e.splitOn ":" with
+    | [p, "d"] => some (compsOf (hexOrBad p), Node.dir)
+    | [p, "f", i] => (pidx i).bind (fun i => t[i]?.map (fun r => (compsOf (hexOrBad p), Node.file r.bytes)))
+    | _ => none)
+
+/-- `hexpath:d` / `hexpath:f:<hex>` entries of an implementation walk. -/
+def parseWalk (s : String) : Spec.Overlay.Walk :=
+  if s == "-" then [] else
+  (s.splitOn ",").filterMap (fun e =>
+    match e.splitOn ":" with
+    | [p, "d"] => some (compsOf (hexOrBad p), Spec.Overlay.Kind.dir)
+    | [p, "f", h] => some (compsOf (hexOrBad p), Spec.Overlay.Kind.file (hexOrBad h))
+    | _ => none)
+
+def layerWalk (l : Layer) : Spec.Overlay.Walk :=
+  l.map (fun e => (e.1, match e.2 with | .dir => .dir | .file b => .file b))
+
+/-! ### printing the model state -/
+
+def showLayer (l : Layer) : String :=
+  if l.isEmpty then "-" else
+  let es := (l.map (fun e => (render e.1, e.2))).mergeSort (fun a b => Fs.leB a.1 b.1)
+  ",".intercalate (es.map (fun e => match e.2 with
+    | .dir => hexOfBytes e.1 ++ ":d"
+    | .file b => hexOfBytes e.1 ++ ":f:" ++ hexOfBytes b))
+
+def showLayers (ls : List Layer) : String := " |" ++ String.join (ls.map (fun l => " " ++ showLayer l))
+
+def unitStr : Res Unit → String
+  | .ok () => "ok"
+  | .err e => "err " ++ e.name
+  | .panic => "panic"
+
+def hexList (xs : List Bytes) : String := if xs.isEmpty then "-" else ",".intercalate (xs.map hexOfBytes)
+
+/-! ### case state -/
+
+structure CaseSt where
+  id : String
+  game : GameId
+  lang : Localize.Language
+  table : Table
+  arch : List (Option Nat)
+  fs : Option Fs                                       -- model state; `none` when the model's `new` failed
+  walks : List Spec.Overlay.Walk                       -- implementation's walks after the previous line
+  implLive : Bool                                      -- the implementation's `new` succeeded
+  written : List (Spec.Overlay.Path × Bool × Bytes)    -- (location, suffix flag) ↦ last payload written
+
+abbrev State := Option CaseSt
+
+/-! ### the model side -/
+
+def loc? (s : String) : Bool := s == "1"
+
+def modelStep (st : CaseSt) (fs : Fs) (c : List String) : Fs × String :=
+  let E := envOf st.table st.arch
+  let arg := fun (i : Nat) => c.getD i "-"
+  let path := hexOrBad (arg 2)
+  match c.getD 1 "" with
+  | "write" =>
+    match (pidx (arg 3)).bind (fun i => st.table[i]?) with
+    | some r => let (fs', o) := fs.write E path r.bytes (loc? (arg 4)); (fs', unitStr o)
+    | none => (fs, "bad-payload")
+  | "read" => (fs, resStr hexOfBytes (fs.read E path (loc? (arg 3))))
+  | "exists" => (fs, resStr (fun b => if b then "1" else "0") (fs.exists_ path (loc? (arg 3))))
+  | "file_exists" => (fs, resStr (fun b => if b then "1" else "0") (fs.fileExists path (loc? (arg 3))))
+  | "directory_exists" => (fs, resStr (fun b => if b then "1" else "0") (fs.directoryExists path (loc? (arg 3))))
+  | "create_dir" => let (fs', o) := fs.createDir path (loc? (arg 3)); (fs', unitStr o)
+  | "resolve" =>
+    match fs.resolve path (loc? (arg 3)) with
+    | none => (fs, "ok ~")
+    | some (i, a) => (fs, "ok L" ++ toString i ++ ":" ++ hexOfBytes a)
+  | "list" =>
+    let pat := if arg 3 == "~" then none else some (hexOrBad (arg 3))
+    match fs.list path pat (loc? (arg 4)) with
+    | .ok xs =>
+      let bits := String.ofList (xs.map (fun x => match fs.exists_ x false with | .ok true => '1' | _ => '0'))
+      (fs, "ok " ++ hexList xs ++ " " ++ (if xs.isEmpty then "-" else bits))
+    | .err e => (fs, "err " ++ e.name)
+    | .panic => (fs, "panic")
+  | "subdirs" =>
+    match fs.subdirectories path (loc? (arg 3)) with
+    | .ok xs =>
+      let bits := String.ofList (xs.map (fun x => match fs.exists_ x false with | .ok true => '1' | _ => '0'))
+      (fs, "ok " ++ hexList xs ++ " " ++ (if xs.isEmpty then "-" else bits))
+    | .err e => (fs, "err " ++ e.name)
+    | .panic => (fs, "panic")
+  | "read_archive" => (fs, resStr id (fs.readArchive E path (loc? (arg 3))))
+  | "read_text" => (fs, resStr id (fs.readTextArchive E path (loc? (arg 3))))
+  | "read_fe9arc" => (fs, resStr id (fs.readFe9Arc E path (loc? (arg 3))))
+  | "read_arc" => (fs, resStr id (fs.readArc E path (loc? (arg 3))))
+  | "read_tpl" => (fs, resStr id (fs.readTplTextures E path (loc? (arg 3))))
+  | "read_bch" => (fs, resStr id (fs.readBchTextures E path (loc? (arg 3))))
+  | "read_ctpk" => (fs, resStr id (fs.readCtpkTextures E path (loc? (arg 3))))
+  | "read_cgfx" => (fs, resStr id (fs.readCgfxTextures E path (loc? (arg 3))))
+  | "write_archive" => let (fs', o) := fs.writeArchive E path (arg 3) (loc? (arg 4)); (fs', unitStr o)
+  | "write_text" => let (fs', o) := fs.writeTextArchive E path (arg 3) (loc? (arg 4)); (fs', unitStr o)
+  | "cfg" =>
+    let e := match fs.cfg.endian with | .big => "Big" | .little => "Little"
+    let t := match fs.cfg.text with | .shiftJis => "ShiftJIS" | .unicode => "Unicode"
+    let l := match Localize.localize fs.cfg.localizer fs.lang (bs ['p', '/', 'q']) with
+      | .ok x => hexOfBytes x | .err _ => "!" | .panic => "panic"
+    (fs, "ok " ++ e ++ " " ++ t ++ " " ++ l)
+  | _ => (fs, "bad-op")
+
+/-! ### the oracle side (specification on the implementation's output) -/
+
+open Spec.Overlay in
+inductive Target
+  | skip                                   -- outside the property's domain
+  | mustErr                                -- unsupported game/language pair, path without a final component
+  | at (qs : Bytes) (q : Loc)
+
+/-- Where an operation on `path` must look, by the specification's localisation table. -/
+def target (g : Spec.Loc.Game) (lang : Spec.Loc.Language) (path : Bytes) (localized : Bool) : Target :=
+  if !localized then
+    match Spec.Overlay.locOf path with
+    | some q => .at path q
+    | none => .skip
+  else if path = [] then .mustErr
+  else
+    let pieces := splitOn' Spec.Loc.slash path
+    let pieces := if pieces.length ≥ 2 ∧ pieces.getLast? = some [] then pieces.dropLast else pieces
+    if pieces.all (fun c => decide (Spec.Loc.Plain c)) then
+      match Spec.Loc.expected g lang pieces.dropLast (pieces.getLast?.getD []) with
+      | none => .mustErr
+      | some qs =>
+        match Spec.Overlay.locOf qs with
+        | some q => .at qs q
+        | none => .skip
+    else .skip
+
+structure Impl where
+  out : List String                      -- outcome tokens (`ok …`, `err C`, `panic`)
+  walks : List Spec.Overlay.Walk
+
+def splitImpl (i : List String) : Option Impl :=
+  let body := i.drop 1
+  match body.idxOf? "|" with
+  | some k => some ⟨body.take k, (body.drop (k + 1)).map parseWalk⟩
+  | none => none
+
+def sameWalks (a b : List Spec.Overlay.Walk) : Bool :=
+  a.length == b.length && (List.zipWith Spec.Overlay.sameTree a b).all id
+
+def isErr (o : List String) : Bool := o.head? == some "err"
+def isOk (o : List String) : Bool := o.head? == some "ok"
+
+/-- Expected outcome of a byte-level read, from the walks: `some (ok bytes)`, `some (err class)`;
+`none` = cannot be judged (stored bytes outside the codec table). -/
+def expectedRead (st : CaseSt) (g : Spec.Loc.Game) (q : Spec.Overlay.Loc) (path : Bytes) : Option (Except String Bytes) :=
+  match Spec.Overlay.topFile st.walks q with
+  | none => some (.error "NotFound")
+  | some s =>
+    if Spec.Overlay.hasCompressedSuffix g path then
+      match st.table.find s with
+      | some r => (match r.dz with | some b => some (.ok b) | none => some (.error "Decoding"))
+      | none => none
+    else some (.ok s)
+
+def digIndex (g : Spec.Loc.Game) : String → Nat
+  | "read_archive" => (match (Spec.Overlay.config g).endian with | .big => 0 | .little => 1)
+  | "read_text" => (match (Spec.Overlay.config g).text, (Spec.Overlay.config g).endian with
+    | .shiftJis, .big => 2 | .shiftJis, .little => 3 | .utf16, .big => 4 | .utf16, .little => 5)
+  | "read_fe9arc" => 6 | "read_arc" => 7 | "read_tpl" => 8 | "read_bch" => 9 | "read_ctpk" => 10
+  | "read_cgfx" => 11 | _ => 99
+
+/-- Oracle for a write of payload `b` (already serialised). Returns verdict and the new `written`. -/
+def oracleWrite (st : CaseSt) (g : Spec.Loc.Game) (lang : Spec.Loc.Language) (im : Impl)
+    (path : Bytes) (b : Bytes) (localized : Bool) : String × List (Spec.Overlay.Path × Bool × Bytes) :=
+  let z := Spec.Overlay.hasCompressedSuffix g path
+  match target g lang path localized with
+  | .skip => ("ok skip", [])       -- out-of-domain write: forget what was written (it may have been replaced)
+  | .mustErr =>
+    if !isErr im.out then ("FAIL write with an unsupported language / degenerate path must be an error", st.written)
+    else if !sameWalks st.walks im.walks then ("FAIL a rejected write changed the layers", st.written)
+    else ("ok", st.written)
+  | .at _ q =>
+    if !Spec.Overlay.lowerUntouched st.walks im.walks then ("FAIL write_frame: a lower layer changed", st.written) else
+    match st.walks.getLast?, im.walks.getLast? with
+    | some top, some top' =>
+      if Spec.Overlay.writable top q then
+        if !isOk im.out then ("FAIL write must succeed (top layer can take the file)", st.written) else
+        match top'.at q.comps with
+        | some (.file s) =>
+          let storedOk :=
+            if z then (match st.table.find s with | some r => r.dz == some b | none => false) else s == b
+          if !storedOk then
+            ((if z then "FAIL stored file is not a valid compressed stream of the payload" else "FAIL stored bytes differ from the payload"), st.written)
+          else if !Spec.Overlay.writtenTop top top' q s then ("FAIL write_frame: top layer changed beyond the file and its parent directories", st.written)
+          else ("ok", (q.comps, z, b) :: st.written.filter (fun w => w.1 != q.comps))
+        | _ => ("FAIL written file is missing from the top layer", st.written)
+      else
+        if !isErr im.out then ("FAIL write onto a directory / through a file / with a trailing slash must be an error", st.written)
+        else if !Spec.Overlay.onlyAncestorDirsAdded top top' q.comps then ("FAIL a rejected write changed more than parent directories", st.written)
+        else ("ok", st.written)
+    | _, _ => ("FAIL no layers", st.written)
+
+def boolTok (b : Bool) : String := if b then "1" else "0"
+
+def oracleStep (st : CaseSt) (c : List String) (i : List String) : String × List (Spec.Overlay.Path × Bool × Bytes) :=
+  match splitImpl i with
+  | none => ("FAIL malformed implementation line", st.written)
+  | some im =>
+  if im.out.head? == some "panic" then ("FAIL panic", st.written) else
+  match specGame st.game with
+  | none => ("ok skip", st.written)
+  | some g =>
+  let lang := specLang st.lang
+  let arg := fun (k : Nat) => c.getD k "-"
+  let path := hexOrBad (arg 2)
+  let op := c.getD 1 ""
+  let W := st.written
+  let unchanged := sameWalks st.walks im.walks
+  let ws := st.walks
+  match op with
+  | "write" =>
+    match (pidx (arg 3)).bind (fun k => st.table[k]?) with
+    | some r => oracleWrite st g lang im path r.bytes (loc? (arg 4))
+    | none => ("FAIL bad-case", W)
+  | "write_archive" | "write_text" =>
+    match (pidx (arg 3)).bind (fun k => st.arch[k]?) with
+    | some (some k) =>
+      (match st.table[k]? with
+       | some r => oracleWrite st g lang im path r.bytes (loc? (arg 4))
+       | none => ("FAIL bad-case", W))
+    | some none => if isErr im.out && unchanged then ("ok", W) else ("FAIL unserialisable archive must be an error", W)
+    | none => ("FAIL bad-case", W)
+  | "create_dir" =>
+    (match target g lang path (loc? (arg 3)) with
+    | .skip => ("ok skip", W)
+    | .mustErr => if isErr im.out && unchanged then ("ok", W) else ("FAIL create_dir: unsupported / degenerate path must be an error and change nothing", W)
+    | .at _ q =>
+      if !Spec.Overlay.lowerUntouched ws im.walks then ("FAIL write_frame: create_dir changed a lower layer", W) else
+      match ws.getLast?, im.walks.getLast? with
+      | some top, some top' =>
+        if Spec.Overlay.dirCreatable top q then
+          if isOk im.out && Spec.Overlay.createdTop top top' q then ("ok", W)
+          else ("FAIL create_dir must create exactly the directory and its parents in the top layer", W)
+        else if isErr im.out && Spec.Overlay.sameTree top top' then ("ok", W)
+        else ("FAIL create_dir through a regular file must be an error and change nothing", W)
+      | _, _ => ("FAIL no layers", W))
+  | "cfg" =>
+    let e := match (Spec.Overlay.config g).endian with | .big => "Big" | .little => "Little"
+    let t := match (Spec.Overlay.config g).text with | .shiftJis => "ShiftJIS" | .utf16 => "Unicode"
+    let l := match Spec.Loc.expected g lang [bs ['p']] (bs ['q']) with | some x => hexOfBytes x | none => "!"
+    if im.out == ["ok", e, t, l] && unchanged then ("ok", W)
+    else ("FAIL config_table: expected " ++ e ++ " " ++ t ++ " " ++ l, W)
+  | _ =>
+  -- every remaining operation is read-only
+  if !unchanged then ("FAIL a read-only operation changed the layers", W) else
+  let localized := loc? (if op == "list" then arg 4 else arg 3)
+  match target g lang path localized with
+  | .skip => ("ok skip", W)
+  | .mustErr =>
+    if op == "resolve" then (if im.out == ["ok", "~"] then ("ok", W) else ("FAIL resolve of an unlocalisable path must be None", W))
+    else if isErr im.out then ("ok", W) else ("FAIL unsupported language / degenerate path must be an error", W)
+  | .at qs q =>
+    match op with
+    | "read" =>
+      (match expectedRead st g q path with
+      | none => ("ok skip stored bytes outside the codec table", W)
+      | some (.error cls) =>
+        if im.out == ["err", cls] then ("ok", W) else ("FAIL read_top: expected err " ++ cls, W)
+      | some (.ok b) =>
+        if im.out != ["ok", hexOfBytes b] then ("FAIL read_top: expected the bytes of the highest layer holding the file: " ++ hexOfBytes b, W)
+        else
+          -- read-after-write: same location, same suffix decision ⇒ the payload written last
+          let z := Spec.Overlay.hasCompressedSuffix g path
+          match W.find? (fun w => w.1 == q.comps && w.2.1 == z) with
+          | some w => if q.dirOnly || w.2.2 == b then ("ok", W) else ("FAIL read_after_write: expected " ++ hexOfBytes w.2.2, W)
+          | none => ("ok", W))
+    | "exists" => if im.out == ["ok", boolTok (Spec.Overlay.anyExists ws q)] then ("ok", W) else ("FAIL exists_same_search", W)
+    | "file_exists" => if im.out == ["ok", boolTok (Spec.Overlay.anyFile ws q)] then ("ok", W) else ("FAIL exists_same_search (file)", W)
+    | "directory_exists" => if im.out == ["ok", boolTok (Spec.Overlay.anyDir ws q)] then ("ok", W) else ("FAIL exists_same_search (directory)", W)
+    | "resolve" =>
+      let e := match Spec.Overlay.topExists ws q with
+        | some k => "L" ++ toString k ++ ":" ++ hexOfBytes qs
+        | none => "~"
+      if im.out == ["ok", e] then ("ok", W) else ("FAIL resolve: expected " ++ e, W)
+    | "list" | "subdirs" =>
+      let perLayer : Option (List (List Spec.Overlay.Path)) :=
+        if op == "subdirs" then some (ws.map (fun w => Spec.Overlay.childDirs w q.comps))
+        else
+          let pat : Option Spec.Overlay.Pat :=
+            if arg 3 == "~" then some .all else
+            let p := hexOrBad (arg 3)
+            match splitOn' Spec.Loc.slash p with
+            | [[0x2A]] => some .children
+            | [[0x2A, 0x2A], [0x2A]] => some .all
+            | [0x2A :: 0x2E :: ext] => if ext.all (fun b => b != 0x2A) then some (.childrenExt ext) else none
+            | [[0x2A, 0x2A], 0x2A :: 0x2E :: ext] => if ext.all (fun b => b != 0x2A) then some (.allExt ext) else none
+            | [lit, [0x2A]] => if decide (Spec.Loc.Plain lit) && lit.all (fun b => b != 0x2A) then some (.inDir lit) else none
+            | _ => none
+          pat.map (fun pt => ws.map (fun w => Spec.Overlay.entriesUnder w q.comps pt))
+      (match perLayer with
+      | none => ("ok skip pattern outside the family", W)
+      | some per =>
+        if !isOk im.out then ("FAIL listing must succeed", W) else
+        let listed := if im.out.getD 1 "-" == "-" then [] else ((im.out.getD 1 "-").splitOn ",").map hexOrBad
+        let bits := im.out.getD 2 "-"
+        if !Spec.Overlay.checkSortedUnion per listed then ("FAIL list_spec: not the sorted duplicate-free union of the layers' entries", W)
+        else if !(bits == "-" || bits.all (· == '1')) then ("FAIL listed_exists: a listed path does not exist according to exists()", W)
+        else if !listed.all (fun x => match Spec.Overlay.locOf x with | some l => Spec.Overlay.anyExists ws l | none => false) then
+          ("FAIL listed_exists: a listed path is in no layer", W)
+        else ("ok", W))
+    | _ =>
+      let k := digIndex g op
+      if k == 99 then ("FAIL bad-case", W) else
+      (match expectedRead st g q path with
+      | none => ("ok skip stored bytes outside the codec table", W)
+      | some (.error _) => if isErr im.out then ("ok", W) else ("FAIL typed helper must fail when the byte-level read fails", W)
+      | some (.ok b) =>
+        match (st.table.find b).bind (fun r => r.digs[k]?) with
+        | none => ("ok skip bytes outside the codec table", W)
+        | some "!" => if isErr im.out then ("ok", W) else ("FAIL typed helper: codec rejects these bytes", W)
+        | some "p" => ("ok skip codec panics on these bytes", W)
+        | some d => if im.out == ["ok", d] then ("ok", W) else ("FAIL typed helper is not codec(game) ∘ read: expected " ++ d, W))
+
+/-! ### family -/
+
+def stepNew (c i : List String) : State × String × String :=
+  let id := c.getD 0 "?"
+  match gameOf (c.getD 2 ""), langOf (c.getD 3 ""), (c.getD 4 "").toNat? with
+  | some g, some lang, some n =>
+    let table : Table := if c.getD 5 "-" == "-" then [] else ((c.getD 5 "").splitOn ";").filterMap parseRec
+    let arch : List (Option Nat) := ((c.getD 6 "").splitOn ",").map pidx
+    let layers := (List.range n).map (fun k => parseTree table (c.getD (7 + k) "-"))
+    let r := LayeredFs.new layers lang g
+    let m := (match r with | .ok _ => "ok" | .err e => "err " ++ e.name | .panic => "panic") ++ showLayers layers
+    let im := splitImpl i
+    let implWalks := match im with | some x => x.walks | none => []
+    let implOk := match im with | some x => isOk x.out | none => false
+    let expectOk := n > 0 && (specGame g).isSome
+    let o :=
+      match im with
+      | none => "FAIL malformed implementation line"
+      | some x =>
+        if x.out.head? == some "panic" then "FAIL panic"
+        else if expectOk && !implOk then "FAIL new must succeed for a supported game with at least one layer"
+        else if !expectOk && !isErr x.out then "FAIL new must fail (no layers / unsupported game)"
+        else if !sameWalks (layers.map layerWalk) x.walks then "FAIL new changed the layer directories"
+        else "ok"
+    (some ⟨id, g, lang, table, arch, r.toOption, implWalks, implOk, []⟩, m, o)
+  | _, _, _ => (none, "bad-case", "FAIL bad-case")
 
 def family : Family where
-  State := Unit
-  init := ()
-  step := fun _ _ _ => ((), "unimplemented", "FAIL unimplemented")
+  State := State
+  init := none
+  step := fun st c i =>
+    if c.getD 1 "" == "new" then stepNew c i
+    else
+      match st with
+      | some s =>
+        if s.id != c.getD 0 "?" then (st, "nostate", "FAIL bad-case: operation without a `new` line")
+        else
+          match s.fs with
+          | none =>
+            -- the model's `new` failed: the implementation must have no filesystem either
+            (st, "nostate", if i.getD 1 "" == "nostate" then "ok" else "FAIL operation on a filesystem that must not exist")
+          | some fs =>
+            let (fs', m) := modelStep s fs c
+            let (o, w) :=
+              if !s.implLive then ("FAIL the implementation has no filesystem although `new` must succeed", s.written)
+              else oracleStep s c i
+            let implWalks := match splitImpl i with | some x => x.walks | none => s.walks
+            (some { s with fs := some fs', walks := implWalks, written := w }, m ++ showLayers fs'.layers, o)
+      | none => (st, "nostate", "FAIL bad-case: operation without a `new` line")
 
 end Driver.Fs
